@@ -10,8 +10,11 @@ import (
 // then random operations drawn from a small pool of scopes so that they collide (operations on
 // closing and closed scopes, second Close, children of stopped parents, listeners that fail on any
 // of the eleven events), optionally a drain phase that completes tasks and closes leaf-first, and
-// a final `settle`.  The bookkeeping here is only a bias towards interesting histories; what an
-// operation does is decided by the drivers.
+// a final `settle`.  Listeners of the eight close events may be GATED (`on <s> <ev> gate <g> ok|err`, gates
+// from a pool of four so that several listeners share one): the closing goroutine parks inside them
+// until `release <g>`; gated histories close parents BEFORE their children half of the time, release the
+// gates in random order, and mostly release everything before the final settle.  The bookkeeping here
+// is only a bias towards interesting histories; what an operation does is decided by the drivers.
 type gscope struct {
 	parent      int
 	depth       int
@@ -23,11 +26,51 @@ type gscope struct {
 	done        *bool // believed state of its context (shared with the scopes of the same context)
 }
 
+var closeEvNames = evNames[3:]
+
 func genHistory(r *hx.Rand, forceProbes bool, multiRoot bool) []string {
 	var (
 		out    = []string{"reset", "new"}
 		scopes = []gscope{{parent: -1, done: new(bool)}}
+		gated  = r.Chance(1, 2) // this history uses gated listeners
+		used   = map[int]bool{} // gates that have a listener and have not been released
 	)
+	gatedOn := func(s int) {
+		if scopes[s].closed { // prefer a scope whose Close has not begun: its own events will reach the listener
+			for j := len(scopes) - 1; j >= 0; j-- {
+				if !scopes[j].closed && r.Chance(2, 3) {
+					s = j
+					break
+				}
+			}
+		}
+		ev := "afterClose"
+		if r.Chance(1, 2) {
+			ev = r.Pick(closeEvNames)
+		}
+		g := r.Intn(4)
+		res := "ok"
+		if r.Chance(1, 3) {
+			res = "err"
+		}
+		out = append(out, fmt.Sprintf("on %d %s gate %d %s", s, ev, g, res))
+		used[g] = true
+	}
+	release := func() {
+		var gs []int
+		for g := 0; g < 4; g++ {
+			if used[g] {
+				gs = append(gs, g)
+			}
+		}
+		if len(gs) == 0 || r.Chance(1, 10) {
+			out = append(out, fmt.Sprintf("release %d", r.Intn(5)))
+			return
+		}
+		g := gs[r.Intn(len(gs))]
+		out = append(out, fmt.Sprintf("release %d", g))
+		delete(used, g)
+	}
 	// believed to have returned from Close (a child of such a scope is outside the protocol's domain)
 	finished := func(i int) bool { return scopes[i].closed && scopes[i].outstanding == 0 && scopes[i].openKids == 0 }
 	if forceProbes || r.Chance(1, 3) {
@@ -100,6 +143,10 @@ func genHistory(r *hx.Rand, forceProbes bool, multiRoot bool) []string {
 				addChild(s)
 			}
 		case x < 28:
+			if gated && r.Chance(1, 2) {
+				gatedOn(s)
+				break
+			}
 			res := "ok"
 			if r.Chance(1, 4) {
 				res = "err"
@@ -140,7 +187,18 @@ func genHistory(r *hx.Rand, forceProbes bool, multiRoot bool) []string {
 			out = append(out, fmt.Sprintf("stop %d", s))
 			*scopes[s].done = *scopes[s].done || !scopes[s].closed
 		case x < 97:
-			if r.Chance(1, 2) { // prefer the deepest open scope: closes complete more often
+			if gated && r.Chance(1, 5) {
+				release()
+				break
+			}
+			if gated && r.Chance(1, 3) { // the parent's Close first: it must wait for the child's listeners
+				for j := range scopes {
+					if !scopes[j].closed {
+						s = j
+						break
+					}
+				}
+			} else if r.Chance(1, 2) { // prefer the deepest open scope: closes complete more often
 				best := -1
 				for j := range scopes {
 					if !scopes[j].closed && (best < 0 || scopes[j].depth >= scopes[best].depth) {
@@ -171,7 +229,12 @@ func genHistory(r *hx.Rand, forceProbes bool, multiRoot bool) []string {
 				out = append(out, fmt.Sprintf("donetask %d", j))
 			}
 		}
-		for d := 4; d >= 0; d-- {
+		topDown := gated && r.Chance(1, 2)
+		for k := 0; k <= 4; k++ {
+			d := 4 - k
+			if topDown {
+				d = k
+			}
 			for j := len(scopes) - 1; j >= 0; j-- {
 				if scopes[j].depth == d && !scopes[j].closed && r.Chance(9, 10) {
 					out = append(out, fmt.Sprintf("close %d", j))
@@ -183,5 +246,47 @@ func genHistory(r *hx.Rand, forceProbes bool, multiRoot bool) []string {
 			out = append(out, fmt.Sprintf("close %d", r.Intn(len(scopes))))
 		}
 	}
+	if gated && r.Chance(5, 6) { // open the gates in random order (mostly all of them)
+		for len(used) > 0 {
+			release()
+		}
+	}
 	return append(out, "settle")
 }
+
+// genAdversarial is the deterministic family "the parent's Close is pending, the child's Close enters a
+// gated listener, the parent is sampled (it must still be blocked and must not have fired a triple event),
+// release, both finish": k enumerates the child's event (8), ok/err (2), shared/isolated (2), and whether
+// the closing scope is a child or a grandchild (2) = 64 histories.
+func genAdversarial(k int, probes bool) []string {
+	ev := closeEvNames[k%8]
+	res := []string{"ok", "err"}[(k/8)%2]
+	kind := []string{"shared", "isolated"}[(k/16)%2]
+	deep := (k/32)%2 == 1
+	out := []string{"reset", "new"}
+	if probes {
+		for _, e := range evNames {
+			out = append(out, "on 0 "+e+" ok")
+		}
+	} else {
+		out = append(out, "on 0 commit ok", "on 0 rollback ok")
+	}
+	c := 1
+	out = append(out, "child 0 "+kind)
+	if deep {
+		out = append(out, "child 1 shared")
+		c = 2
+	}
+	out = append(out, fmt.Sprintf("on %d %s gate 0 %s", c, ev, res))
+	out = append(out, "close 0")
+	if deep {
+		out = append(out, "close 1")
+	}
+	out = append(out, fmt.Sprintf("close %d", c))
+	// operations issued while the child's listener runs: each samples the parents first
+	out = append(out, "on 0 afterClose ok", "addtasks 0 1", "donetask 0", fmt.Sprintf("kill %d", c))
+	out = append(out, "release 0", "settle")
+	return out
+}
+
+const nAdversarial = 64
